@@ -353,16 +353,16 @@ theorem Tables.c09_keys_injective (t : Tables) (h : t.c09 = true) (k₁ k₂ : I
 
 theorem Tables.c15_class (t : Tables) (h : t.c15 = true) (c : ClassInfo) (hc : c ∈ t.classes) :
     ∃ p, c.params = some p ∧ p.frozen = true ∧ p.eq = true ∧ p.slots = true ∧ p.unsafeHash = false ∧
-      c.hasSlots = true ∧ c.hasDict = false ∧ c.hashable = true ∧
+      c.hasSlots = true ∧ c.hasDict = false ∧ c.hashable = true ∧ c.hashGenerated = true ∧
       ∀ f ∈ c.fields, f.immutableType = true ∧ f.compare = true := by
   have hv := (Tables.allClasses_iff t _).1 h c hc
   unfold ClassInfo.valueObject at hv
   simp only [Bool.and_eq_true, Bool.not_eq_true', List.all_eq_true] at hv
-  obtain ⟨⟨⟨⟨hp, h1⟩, h2⟩, h3⟩, h4⟩ := hv
+  obtain ⟨⟨⟨⟨⟨hp, h1⟩, h2⟩, h3⟩, h4⟩, h5⟩ := hv
   split at hp
   · next p hpe =>
     simp only [Bool.and_eq_true, Bool.not_eq_true'] at hp
-    exact ⟨p, hpe, hp.1.1.1.1.1, hp.1.1.1.1.2, hp.1.1.1.2, hp.1.1.2, h1, h2, h3,
+    exact ⟨p, hpe, hp.1.1.1.1.1, hp.1.1.1.1.2, hp.1.1.1.2, hp.1.1.2, h1, h2, h3, h5,
       fun f hf => ⟨(h4 f hf).1.1.1, (h4 f hf).1.1.2⟩⟩
   · cases hp
 
